@@ -8,7 +8,7 @@ from .common import Check, MachineryFailure
 from . import pytree_rows as P
 
 QUICK = dict(Mode="leaf", Depth=2, Width=2, NodeKinds={"tuple", "dict"}, AtomSet={"int", "arr2", "arr3"},
-             SmallDepth=1, LeafSet={"int", "tup2", "any", "arrA", "arrV", "uAi", "tupA", "ptA", "uis", "ptptA", "uAshV"},
+             SmallDepth=1, LeafSet={"int", "tup2", "any", "arrA", "arrV", "uAi", "tupA", "ptA", "uis", "ptptA", "uAshV", "uisP", "uAiP", "uAshVP"},
              MemoSet={"empty", "a2", "v2"})
 # leaves that are EQUAL but of different types (7 and 7.0), empty arrays (an axis bound to 0), wider containers
 EQUAL_EMPTY = dict(Mode="leaf", Depth=1, Width=3, NodeKinds={"tuple", "list"}, AtomSet={"int", "flt", "arr0", "arr3"},
